@@ -16,12 +16,14 @@ CONSTANTS Readers,
           Quiescent,    \* TRUE: cleanly closed destination (no frames in the WAL, wal-index header as recovery leaves it)
           SameVers,     \* TRUE: old and new file have the same 16 file-version bytes (same change counter, size, freelist)
           TruncateWal, ZeroShm,     \* TRUE as in the code; FALSE drops the step (to show that the step is needed)
+          LockedMarks,  \* the WAL read marks the restorer locks exclusively (the code: all of them)
           MaxTx         \* read transactions per reader
 
 Pages == {1, 2}
 Restorer == "restorer"
 Procs == Readers \cup {Restorer}
-LockNames == {"PENDING", "RESERVED", "SHARED", "DMS", "WRITE", "CKPT", "RECOVER", "READ"}
+ReadMarks == {"READa", "READb"}      \* two of SQLite's five read marks (READ0..READ4) suffice: a reader sits on one of them
+LockNames == {"PENDING", "RESERVED", "SHARED", "DMS", "WRITE", "CKPT", "RECOVER"} \cup ReadMarks
 NoCache == [p \in Pages |-> "none"]
 
 VARIABLES file,       \* [Pages -> content]   "old" | "stale" (superseded by a WAL frame) | "new"
@@ -57,15 +59,15 @@ HdrAfterRecovery == IF walFile = {} THEN "H0" ELSE "Hf"
 (* WAL mode: the wal-index header is unusable: run recovery (needs the exclusive WAL locks), always resets the cache *)
 WRecover(r) ==
     /\ Wal /\ rd[r].pc = "idle" /\ rd[r].ntx < MaxTx /\ shm = "invalid"
-    /\ \A l \in {"WRITE", "CKPT", "RECOVER", "READ"} : CanWrite(r, l)
+    /\ \A l \in {"WRITE", "CKPT", "RECOVER"} \cup ReadMarks : CanWrite(r, l)
     /\ shm' = HdrAfterRecovery /\ shmFrames' = walFile
     /\ rd' = [rd EXCEPT ![r].cache = NoCache, ![r].hdrCopy = HdrAfterRecovery]
     /\ UNCHANGED <<file, vers, walFile, sh, ex, rs>>
 (* WAL mode: begin a read transaction: shared READ lock, snapshot of the indexed frames, cache kept iff header unchanged *)
 WBegin(r) ==
     /\ Wal /\ rd[r].pc = "idle" /\ rd[r].ntx < MaxTx /\ shm # "invalid"
-    /\ CanRead(r, "READ") /\ CanRead(r, "RECOVER")
-    /\ TakeRead(r, "READ")
+    /\ CanRead(r, "RECOVER")
+    /\ \E m \in ReadMarks : CanRead(r, m) /\ TakeRead(r, m)
     /\ rd' = [rd EXCEPT ![r].pc = "reading", ![r].ntx = @ + 1, ![r].snap = shmFrames, ![r].seen = {},
                         ![r].cache = IF rd[r].hdrCopy = shm THEN @ ELSE NoCache,
                         ![r].hdrCopy = shm]
@@ -107,14 +109,18 @@ RLock ==
     \/ Step("w_write", "w_ckpt", CanWrite(Restorer, "WRITE") /\ TakeWrite(Restorer, "WRITE"))
     \/ Step("w_ckpt", "w_recover", CanWrite(Restorer, "CKPT") /\ TakeWrite(Restorer, "CKPT"))
     \/ Step("w_recover", "w_read", CanWrite(Restorer, "RECOVER") /\ TakeWrite(Restorer, "RECOVER"))
-    \/ Step("w_read", "rm_journal", CanWrite(Restorer, "READ") /\ TakeWrite(Restorer, "READ"))
+    \/ Step("w_read", "rm_journal", /\ \A m \in LockedMarks : CanWrite(Restorer, m)
+                                    /\ ex' = [l \in LockNames |-> IF l \in LockedMarks THEN Restorer ELSE ex[l]]
+                                    /\ sh' = [l \in LockNames |-> IF l \in LockedMarks THEN sh[l] \ {Restorer} ELSE sh[l]])
 LockSteps == {"l_pending", "l_shared", "q_reserved", "q_pending", "q_shared", "w_dms", "w_write", "w_ckpt", "w_recover", "w_read"}
 (* a lock that is not granted within the timeout: the command fails, the process exits *)
 Wanted == [s \in LockSteps |-> CASE s = "l_pending" -> <<"PENDING", "r">> [] s = "l_shared" -> <<"SHARED", "r">> [] s = "q_reserved" -> <<"RESERVED", "w">>
                                   [] s = "q_pending" -> <<"PENDING", "w">> [] s = "q_shared" -> <<"SHARED", "w">> [] s = "w_dms" -> <<"DMS", "r">>
                                   [] s = "w_write" -> <<"WRITE", "w">> [] s = "w_ckpt" -> <<"CKPT", "w">> [] s = "w_recover" -> <<"RECOVER", "w">>
-                                  [] OTHER -> <<"READ", "w">>]
-Blocked == rs \in LockSteps /\ LET w == Wanted[rs] IN IF w[2] = "r" THEN ~CanRead(Restorer, w[1]) ELSE ~CanWrite(Restorer, w[1])
+                                  [] OTHER -> <<"marks", "w">>]
+Blocked == rs \in LockSteps /\ LET w == Wanted[rs] IN
+              IF w[1] = "marks" THEN \E m \in LockedMarks : ~CanWrite(Restorer, m)
+              ELSE IF w[2] = "r" THEN ~CanRead(Restorer, w[1]) ELSE ~CanWrite(Restorer, w[1])
 RAbort == /\ Blocked
           /\ rs' = "aborted" /\ ReleaseAll(Restorer)
           /\ UNCHANGED <<file, vers, walFile, shm, shmFrames, rd>>
